@@ -3,6 +3,7 @@ package main
 // C02 — nothing is uploaded or recorded beyond what the consent mode allows.
 
 import (
+	"os"
 	"fmt"
 	"go/token"
 	"go/types"
@@ -206,6 +207,16 @@ func c02ModeFn(c *Ctx, m *Module) {
 		// data-derived: must depend on the file's bytes only
 		r.Check("C02.mode-failsafe", "Dir.Mode/returns the file's content", m.Pos(ret.Pos()), dependsOn(ret.Results[0], rd, 12),
 			"a non-constant mode must be derived from the mode file's bytes; returns "+describe(ret.Results[0]))
+	}
+	c02ModeRead(c, m, "C02.mode-failsafe")
+	if os.Getenv("VERIF_DEBUG_EXITS") != "" {
+		for _, ex := range exitPaths(fn) {
+			fmt.Printf("MODE-EXIT %s | %s | facts:", shortDesc(describe(ex.vals[0])), describe(ex.vals[1]))
+			for _, f := range ex.facts {
+				fmt.Printf(" [%v %s]", f.Pol, shortDesc(describe(f.Cond)))
+			}
+			fmt.Println()
+		}
 	}
 	r.Check("C02.mode-failsafe", "Dir.Mode/has the \"local\" default", m.Pos(fn.Pos()), sawLocal, "an unreadable mode file must map to \"local\"")
 	r.Check("C02.mode-failsafe", "Dir.Mode/has the \"off\" default", m.Pos(fn.Pos()), sawOff, "an uninitialised directory must map to \"off\"")
@@ -615,6 +626,65 @@ func c02ReadyNames(c *Ctx, m *Module, rule string) {
 	}
 
 	r.Check(rule, "findWork/ready sites enumerated", m.Pos(findWork.Pos()), n >= 1, fmt.Sprintf("%d stores to readyfiles", n))
+}
+
+// c02ModeRead: how Dir.Mode interprets a readable mode file (shared with C16 — "off" must be
+// recognised however the file was written — and C19 — a recorded date must be read back).
+func c02ModeRead(c *Ctx, m *Module, rule string) {
+	r := c.R
+	fn := m.Func("internal/telemetry", "Dir.Mode")
+	// what a readable mode file means: the mode word is the TRIMMED content up to the first
+	// separator (so "off\n" is off), and the date is the parsed rest — zero only when there is no
+	// separator or the rest does not parse as a date, never for any other reason
+	nData := 0
+	for _, ex := range exitPaths(fn) {
+		if _, isC := constOf(ex.vals[0]); isC {
+			continue
+		}
+		nData++
+		md := describe(ex.vals[0])
+		trimmed := "strings.TrimSpace(conv<string>(os.ReadFile("
+		rest := strings.ReplaceAll(md, trimmed, "T(")
+		r.Check(rule, fmt.Sprintf("Dir.Mode/exit %d: mode word comes from the trimmed content", nData), m.Pos(ex.ret.Pos()),
+			strings.Contains(md, trimmed) && !strings.Contains(rest, "os.ReadFile("),
+			"every use of the file's bytes for the mode word must go through TrimSpace of the whole content (a mode file written by `echo off > mode` ends in a newline); got "+shortDesc(md))
+		noSep := hasFact(ex.facts, func(f Fact) bool {
+			if e, ok := f.Cond.(*ssa.Extract); ok && e.Index == 2 {
+				if cl, ok := e.Tuple.(*ssa.Call); ok && calleeName(&cl.Call) == "strings.Cut" {
+					return !f.Pol
+				}
+			}
+			bo, ok := f.Cond.(*ssa.BinOp)
+			if !ok || !strings.HasPrefix(describe(bo.X), "strings.Index") {
+				return false
+			}
+			k, isC := intConst(bo.Y)
+			if !isC {
+				return false
+			}
+			switch {
+			case bo.Op == token.GEQ && k == 0, bo.Op == token.GTR && k == -1, bo.Op == token.NEQ && k == -1:
+				return !f.Pol
+			case bo.Op == token.LSS && k == 0, bo.Op == token.LEQ && k == -1, bo.Op == token.EQL && k == -1:
+				return f.Pol
+			}
+			return false
+		})
+		var parse *ssa.Call
+		for _, cs := range callsIn(fn, "time.Parse") {
+			parse = cs.(*ssa.Call)
+		}
+		if isNilConst(ex.vals[1]) || describe(ex.vals[1]) == "nil" {
+			okZero := noSep || (parse != nil && hasFact(ex.facts, errNonNilOf(parse)))
+			r.Check(rule, fmt.Sprintf("Dir.Mode/exit %d: the zero date only for a missing or unparsable date", nData), m.Pos(ex.ret.Pos()), okZero,
+				"a recorded date that parses must be reported (the uploader's asof gate depends on it); this exit returns the zero time without either reason")
+		} else {
+			dd := describe(ex.vals[1])
+			okDate := parse != nil && strings.HasPrefix(dd, "time.Parse(") && strings.HasSuffix(dd, ")#0") && hasFact(ex.facts, errNilOf(parse))
+			r.Check(rule, fmt.Sprintf("Dir.Mode/exit %d: the date is the parsed rest of the content", nData), m.Pos(ex.ret.Pos()), okDate, "got "+shortDesc(dd))
+		}
+	}
+	r.Check(rule, "Dir.Mode/content-derived exits enumerated", m.Pos(fn.Pos()), nData >= 2, fmt.Sprintf("%d", nData))
 }
 
 // ---- rule 4: ready gate ------------------------------------------------------
